@@ -218,6 +218,15 @@ class CharsIter(Model):
     def __init__(self, s):
         self.s, self.pos = as_symstr(s), 0
 
+    def as_pyiter(self, ex):
+        def g():
+            while True:
+                o = chars_next(ex, None, [self], None, None)
+                if o.variant == 0:
+                    return
+                yield o.fields[0]
+        return PyIter(g())
+
 
 @model(r'(?:core|std|alloc)::str::<impl str>::chars')
 def str_chars(ex, m, a, fr, dest):
@@ -2719,3 +2728,22 @@ def into_iter_as_slice(ex, m, a, fr, dest):
     it.it = iter(rest)
     items = [deref(x) if isinstance(x, Ref) else x for x in rest]
     return Slice(items, 0, len(items))
+
+
+@model(r'(?:core|std|alloc)::slice::<impl \[.*\]>::windows')
+def slice_windows(ex, m, a, fr, dest):
+    from .interp import seq_items
+    items, lo, hi = seq_items(a[0])
+    n = a[1]
+    if is_sym(n):
+        raise Unsupported('windows of symbolic size')
+    if n == 0:
+        raise Panic('window size must be non-zero', fr.name if fr else None)
+    return PyIter((Slice(items, i, i + n) for i in range(lo, hi - n + 1)), max(0, hi - lo - n + 1))
+
+
+@model(r'(?:core::)?(?:char::methods::)?<impl char>::is_control|char::is_control')
+def char_is_control(ex, m, a, fr, dest):
+    c = deref(a[0])
+    # Unicode general category Cc: U+0000..U+001F and U+007F..U+009F
+    return b_or(b_and(b_not(b_lt(c, 0)), b_lt(c, 0x20)), b_and(b_not(b_lt(c, 0x7f)), b_lt(c, 0xa0)))
